@@ -838,6 +838,25 @@ func checkConstructed(w *run.W, a *tokArgs) {
 		if err != nil || err2 != nil || math.Float32bits(g) != b || h != float64(f) {
 			w.Violate("token-float", map[string]string{"origin": "constructed", "bits": "32"}, "Float32(%v) token: Float32() = %v, %v; Float() = %v, %v", f, g, err, h, err2)
 		}
+		// Int and Uint of a float32 token: truncation, saturation and the syntax/range classes apply to the
+		// exact (widened) value; its shortest float32 text is the second admissible reading
+		if lit32, ok := tokenText(w, tok); ok {
+			exact := exactDecimal(float64(f))
+			if p, ok := ref.SplitNumber(exact); ok {
+				checkAccessors(w, tok, exact, p, "constructed-float32", false, lit32)
+				w.Count("token_float32_int_uint_checked", 1)
+			}
+		}
+	}
+	// the three strings that Float documents as non-finite values
+	for _, c := range []struct {
+		s    string
+		want float64
+	}{{"NaN", math.NaN()}, {"Infinity", math.Inf(1)}, {"-Infinity", math.Inf(-1)}} {
+		v, err := jsontext.String(c.s).Float()
+		if err != nil || !(v == c.want || (math.IsNaN(v) && math.IsNaN(c.want))) {
+			w.Violate("token-float", map[string]string{"origin": "string-token", "bits": "64"}, "String(%q).Float() = %v, %v; want %v", c.s, v, err, c.want)
+		}
 	}
 }
 
